@@ -212,6 +212,7 @@ class ULPIHost:
             if phy.phase != TX_DATA and not self._pulse:
                 break
             await self.cycle(ctx)
+        self.rxcmd_at.clear()                              # a line-state update still pending is overtaken by this packet
         start = pat.get("start", "cmd")
         act = VBUS_VALID | 0x10 | LS_K
         if phy.dir == 0:
@@ -233,7 +234,7 @@ class ULPIHost:
                 break
             g = (gaps[i] if gaps is not None else 0) + pat.get("gaps", {}).get(i, 0)
             for _ in range(g):
-                await self.cycle(ctx, "none")
+                await self.cycle(ctx, "gap")               # DIR high, no NXT: the PHY repeats its RxCmd
             for low in pat.get("cmds", {}).get(i, ()):
                 await self.cycle(ctx, "cmd", VBUS_VALID | 0x10 | low)
             await self.cycle(ctx, "data", byte)
